@@ -295,16 +295,17 @@ def finalizeTransaction (cap : Id → Nat) (st : State) (tx : Tx) (snap : Id) (t
         | .error e => .error e
         | .ok st3 => writeTotal cap st3 tx
 
+/-- `verifyAssetInfo(txn, ver.Asset, d.Asset())` when the first input is a deposit -/
+def depositInfoOk (st : State) (tx : Tx) : Bool :=
+  match tx.inputs with
+  | .deposit _ chain key _ :: _ => verifyAssetInfo st tx.asset (chain, key)
+  | _ => true
+
 /-- inner `writeTransaction` -/
 def writeTransactionInner (st : State) (tx : Tx) : Except Fail State :=
   match aget st.txs tx.id with
   | some _ => .ok st
-  | none =>
-    let ok : Bool :=
-      match tx.inputs with
-      | .deposit _ chain key _ :: _ => verifyAssetInfo st tx.asset (chain, key)
-      | _ => true
-    if ok then .ok { st with txs := aset st.txs tx.id tx } else .error .err
+  | none => if depositInfoOk st tx then .ok { st with txs := aset st.txs tx.id tx } else .error .err
 
 /-- the `config.Debug` assertion of `WriteTransaction`: every input is locked for this transaction -/
 def inputLockedFor (st : State) (tx : Tx) : Input → Bool
@@ -508,62 +509,70 @@ def mintBatchOk (st : State) (tx : Tx) (batch amount : Nat) : Bool :=
   | some (b, a, t) =>
     if batch < b then false else if batch > b then true else t = tx.id && a = amount
 
+/-- everything `Validate` does up to and including `LockGhostKeys`: `none` = rejected (state
+    untouched), `some (st1, us)` = the ghost keys are now held and `us` are the spent outputs -/
+def validateCore (st : State) (tx : Tx) (fork : Bool) : Option (State × List UTXO) :=
+  let ty := txType tx
+  if ty = .unknown then none else
+  if tx.inputs.isEmpty || tx.outputs.isEmpty then none else
+  if !refsFinalized st tx then none else
+  match validateInputsLoop st tx ty fork tx.inputs [] 0 [] with
+  | none => none
+  | some (inAmt, us, needSig) =>
+    if needSig && !tx.sigOk then none else
+    if inAmt = 0 then none else
+    if !tx.outputs.all outputShapeOk then none else
+    if !nodup (ghostKeys tx) then none else
+    if inAmt ≠ outSum tx.outputs then none else
+    match lockGhostKeys (ghostKeys tx) st tx.id with
+    | .error _ => none
+    | .ok st1 => some (st1, us)
+
+/-- the type-specific tail of `Validate` (reads only) -/
+def validateType (P : Params) (st1 : State) (tx : Tx) (us : List UTXO) : Bool :=
+  match txType tx with
+  | .script => us.all (fun u => u.typ = .script || u.typ = .nodeRemove)
+  | .mint =>
+    (match tx.inputs with
+     | [.mint b a] => tx.outputs.all (·.typ = .script) && tx.asset = P.xin && mintBatchOk st1 tx b a
+     | _ => false)
+  | .deposit =>
+    (match tx.inputs, tx.outputs with
+     | [.deposit key chain akey amount], [o] =>
+       o.typ = .script &&
+       (match aget st1.assetInfo tx.asset with
+        | none => true
+        | some old => readTotal st1 tx.asset + amount < P.cap tx.asset && old = (chain, akey)) &&
+       tx.custOk &&
+       (match aget st1.deposit key with
+        | none => true
+        | some l => l = tx.id)
+     | _, _ => false)
+  | .withdrawalSubmit =>
+    us.all (·.typ = .script) &&
+    (match tx.outputs with
+     | o :: r => r.all (·.typ = .script) && o.typ = .withdrawalSubmit
+     | [] => false)
+  | .withdrawalClaim =>
+    us.all (·.typ = .script) && tx.asset = P.xin &&
+    (match tx.outputs, tx.refs with
+     | o :: r, [ref] =>
+       r.all (·.typ = .script) && o.typ = .withdrawalClaim && o.amount ≥ P.claimFee &&
+       (match aget st1.txs ref with
+        | some sub => (match sub.outputs with
+                       | so :: _ => so.typ = .withdrawalSubmit
+                       | [] => false)
+        | none => false) && tx.custOk
+     | _, _ => false)
+  | _ => false
+
 /-- `Validate(store, snapTime, fork)`: decision and the state after it (validation takes the
     ghost-key locks as a side effect, before the type-specific checks). Node and custodian
     transaction types are outside this model (`false`, never generated). -/
 def validate (P : Params) (st : State) (tx : Tx) (fork : Bool) : Bool × State :=
-  let ty := txType tx
-  if ty = .unknown then (false, st) else
-  if tx.inputs.isEmpty || tx.outputs.isEmpty then (false, st) else
-  if !refsFinalized st tx then (false, st) else
-  match validateInputsLoop st tx ty fork tx.inputs [] 0 [] with
+  match validateCore st tx fork with
   | none => (false, st)
-  | some (inAmt, us, needSig) =>
-    if needSig && !tx.sigOk then (false, st) else
-    if inAmt = 0 then (false, st) else
-    if !tx.outputs.all outputShapeOk then (false, st) else
-    if !nodup (ghostKeys tx) then (false, st) else
-    if inAmt ≠ outSum tx.outputs then (false, st) else
-    match lockGhostKeys (ghostKeys tx) st tx.id with
-    | .error _ => (false, st)
-    | .ok st1 =>
-      let ok : Bool :=
-        match ty with
-        | .script => us.all (fun u => u.typ = .script || u.typ = .nodeRemove)
-        | .mint =>
-          (match tx.inputs with
-           | [.mint b a] => tx.outputs.all (·.typ = .script) && tx.asset = P.xin && mintBatchOk st1 tx b a
-           | _ => false)
-        | .deposit =>
-          (match tx.inputs, tx.outputs with
-           | [.deposit key chain akey amount], [o] =>
-             o.typ = .script &&
-             (match aget st1.assetInfo tx.asset with
-              | none => true
-              | some old => readTotal st1 tx.asset + amount < P.cap tx.asset && old = (chain, akey)) &&
-             tx.custOk &&
-             (match aget st1.deposit key with
-              | none => true
-              | some l => l = tx.id)
-           | _, _ => false)
-        | .withdrawalSubmit =>
-          us.all (·.typ = .script) &&
-          (match tx.outputs with
-           | o :: r => r.all (·.typ = .script) && o.typ = .withdrawalSubmit
-           | [] => false)
-        | .withdrawalClaim =>
-          us.all (·.typ = .script) && tx.asset = P.xin &&
-          (match tx.outputs, tx.refs with
-           | o :: r, [ref] =>
-             r.all (·.typ = .script) && o.typ = .withdrawalClaim && o.amount ≥ P.claimFee &&
-             (match aget st1.txs ref with
-              | some sub => (match sub.outputs with
-                             | so :: _ => so.typ = .withdrawalSubmit
-                             | [] => false)
-              | none => false) && tx.custOk
-           | _, _ => false)
-        | _ => false
-      (ok, st1)
+  | some (st1, us) => (validateType P st1 tx us, st1)
 
 /-! ### what C17 observes -/
 
